@@ -249,6 +249,8 @@ def run(chk: Check, only_numeric: bool = False) -> None:
             r2.ok(key2, where, f"C returns {sorted(rets)[:4]}")
     chk.extra["macro_bound"] = n_macro
     run_operator_names(chk, sites, only_numeric)
+    if only_numeric:
+        run_heap_tag_construction(chk, ix, funcs)
     # ---- error value overlap
     r7 = chk.rule("R05.7" if not only_numeric else "R15.5", "a primitive whose result type has no spare value to signal an error (RPrimitive(..., error_overlap=True): fixed-width native ints, float) never declares ERR_MAGIC: the error value of such a type (-113, -113.0) is also a legal result, so the generated code must confirm with PyErr_Occurred() (ERR_MAGIC_OVERLAPPING) or the C function must not fail (ERR_NEVER); with plain ERR_MAGIC `x % y == -113` branches to the error handler with no exception set", floor=45 if not only_numeric else 45)
     rt = ix.module("mypyc.ir.rtypes")
@@ -670,3 +672,21 @@ def walk_own(fn: ast.AST):
         if isinstance(n, (ast.FunctionDef, ast.AsyncFunctionDef, ast.Lambda)):
             continue
         stack.extend(ast.iter_child_nodes(n))
+
+
+def run_heap_tag_construction(chk: Check, ix, funcs) -> None:
+    """R15.7: a heap-tagged int is built only for a value that does not fit a short int."""
+    r = chk.rule("R15.7", "mypyc's `int` is a tagged word: small values live in the word itself, and only values that do not fit are boxed, which the fast paths rely on (equality compares words, truth tests the word against 0, indexing and narrowing conversions treat a boxed value as out of range). lib-rt therefore builds a boxed int (`((CPyTagged)obj) | CPY_INT_TAG`) only in the then-branch of a size test: a condition on the `overflow` flag of CPyLong_AsSsize_tAndOverflow, a call of CPyTagged_TooBig / CPyTagged_TooBigInt64, or a magnitude comparison of the source value (clang's statement trees; 6 sites). An unconditional boxing of an arithmetic result (`x ^ x` is 0) puts a small value into a boxed int", floor=5)
+    n = 0
+    for name, e in sorted(funcs.items()):
+        for site in e.get("heap_tag_sites", []):
+            n += 1
+            key = f"{name}: a boxed int is built only under a does-not-fit test"
+            gn = set(site["guard_names"])
+            ok = bool(gn & {"overflow"}) or any(g.startswith("CPyTagged_TooBig") for g in gn) or (site["n_guards"] >= 1 and site.get("guard_relops"))
+            if ok:
+                r.ok(key, f"mypyc/lib-rt ({name})", f"guard mentions {sorted(gn - {'__builtin_expect'})} {site.get('guard_relops') or ''}")
+            else:
+                r.violation(key, f"mypyc/lib-rt ({name})", f"`((CPyTagged)obj) | CPY_INT_TAG` is evaluated {'under ' + str(sorted(gn)) if site['n_guards'] else 'unconditionally'} without a test that the value is too big for a short int: a result that happens to be small is boxed, and compiled `==`, `if x:`, indexing and conversions to native ints then answer wrongly")
+    if n < 5:
+        raise AnalysisError(f"only {n} boxed-int construction sites found in lib-rt (pattern `(CPyTagged)ptr | 1` no longer recognised?)")
